@@ -4,9 +4,13 @@ The repository's own code is run by the ordinary interpreter on these values (se
 branch on a symbolic condition is decided by the solver, paths are explored depth-first by
 re-execution, and a property is an assertion whose negation is handed to the solver.
 """
+import sys
 import time
 import hashlib as _real_hashlib
 import z3
+
+if hasattr(sys, 'set_int_max_str_digits'):
+    sys.set_int_max_str_digits(0)      # z3's Python layer passes big constants as decimal text
 
 
 # ------------------------------------------------------------------------------- control-flow exceptions
@@ -1098,6 +1102,26 @@ class SymBitStr:
     def __ge__(self, o):
         r = self.__lt__(o)
         return (not r) if isinstance(r, bool) else ~r
+
+    def startswith(self, prefix, start=0):
+        if isinstance(prefix, tuple):
+            r = False
+            for p in prefix:
+                x = self.startswith(p, start)
+                if x is True:
+                    return True
+                r = x if r is False else (r | x if x is not False else r)
+            return r
+        k = len(prefix)
+        if start + k > len(self):
+            return False
+        return self[start:start + k] == prefix
+
+    def endswith(self, suffix):
+        k = len(suffix)
+        if k > len(self):
+            return False
+        return self[len(self) - k:] == suffix
 
     def find(self, ch):
         if ch not in ('0', '1'):
